@@ -12,7 +12,7 @@ use crate::verif::{self, CAP, FS};
 use std::time::Duration;
 
 pub const GMAX: usize = 10;
-pub const MAXEV: usize = 12;
+pub const MAXEV: usize = 8;
 
 // ---------------------------------------------------------------------------------------------
 // oracle selection: one bit per group of assertions, concrete per harness
@@ -28,7 +28,6 @@ pub const O_STORE: u32 = 1 << 8; // C02: ACK(k) => k received in sequence and al
 pub const O_ACKCAD: u32 = 1 << 9; // C08 (receiver): ACK at the latest after W in-order blocks and on the final one
 pub const O_FULLWIN: u32 = 1 << 10; // C09: a burst carries the whole negotiated window
 pub const O_RETRY: u32 = 1 << 11; // C04/C07: no give-up before 6 consecutive failed receives, none after RETRY_CAP
-pub const O_REACK: u32 = 1 << 12; // C04 (receiver): a lost ACK is repaired: after a duplicate of the last acknowledged block and a time-out the ACK has been re-sent
 pub const RETRY_BUDGET: usize = 6;
 pub const RETRY_CAP: usize = 8;
 
@@ -83,7 +82,6 @@ pub struct Mock {
     pub ack: Need,
     pub ack_count: usize,
     pub final_seen: bool,
-    pub reacks: usize,
     // ---- both ----
     pub ret: Ret,
     pub ended: bool,
@@ -103,7 +101,7 @@ pub static mut M: Mock = Mock {
     timeout: Duration::from_secs(5), b0: 1, fdata: [0; CAP], flen: 0, front: 0, next_in_burst: 0,
     cur_rel: 0, rep_left: 0, burst: Need::Must, burst_started: false, last_tx: Duration::ZERO,
     handshake: false, g: [0; CAP], glen: 0, last_inorder: 0, unacked: 0, ack: Need::MustNot,
-    ack_count: 0, final_seen: false, reacks: 0, ret: Ret::MustContinue, ended: false, sends_total: 0,
+    ack_count: 0, final_seen: false, ret: Ret::MustContinue, ended: false, sends_total: 0,
     recvs_total: 0, fails: 0, fails_any: 0, saw_short: false, saw_refill: false, saw_ignored: false,
 };
 
@@ -333,7 +331,6 @@ fn rcv_on_send(p: &Packet) {
                     assert!(M.ack != Need::MustNot, "ORACLE ackcad: ACK emitted where none is allowed");
                 }
                 M.ack_count += 1;
-                if *k == M.last_inorder { M.reacks += 1; }
                 kani::cover!(M.ack_count == 1 && M.recvs_total > 0, "witness: ACK sent after an arrival");
                 if on(O_REPEAT) { assert!(M.ack_count <= M.rep, "ORACLE repeat: ACK emitted more than N+1 times"); }
                 M.unacked = 0;
@@ -351,9 +348,6 @@ fn rcv_before_recv() {
         if on(O_END) { assert!(!M.ended, "ORACLE end: receive attempted after the transfer ended"); }
         if on(O_END) { assert!(M.ret != Ret::MustOk && M.ret != Ret::MustErr, "ORACLE end: transfer goes on after it had to end"); }
         rcv_close_phase();
-        if on(O_REACK) && M.next >= M.nev {
-            assert!(M.reacks > 0, "ORACLE reack: lost ACK never repaired (no re-ACK after a duplicate of the last acknowledged block nor after the following time-out)");
-        }
     }
 }
 
@@ -397,11 +391,10 @@ fn rcv_after_event(e: &Ev) {
                         M.ret = Ret::MustContinue;
                     }
                 } else {
-                    // duplicate / out of order: must not change what is stored; re-ACK allowed;
-                    // a duplicated or reordered DATA never fails the transfer
+                    // duplicate / out of order: must not change what is stored; re-ACK allowed
                     M.saw_ignored = true;
                     M.ack = Need::May;
-                    M.ret = if on(O_RETRY) { Ret::MustContinue } else { Ret::Any };
+                    M.ret = Ret::Any;
                 }
             }
             3 => { M.ret = Ret::MustErr; M.ack = Need::MustNot; M.ended = true; }
@@ -462,7 +455,6 @@ impl Socket for MockSocket {
 
 /// What must be true when the transfer function has returned.
 fn at_return(ok: bool) {
-    kani::cover!(true, "witness: transfer function returned");
     unsafe {
         if M.sender { snd_before_return() } else { rcv_close_phase() }
         match M.ret {
@@ -486,26 +478,6 @@ fn snd_before_return() {
     }
 }
 
-pub const ANYNUM: i32 = 99999;
-
-/// One scripted event: kind any of the mask `kinds` (bit i = kind i), block number any
-/// (`rel == ANYNUM`) or `base + rel` (mod 2^16), DATA payload length `len` (concrete), payload
-/// bytes and clock advance symbolic.
-pub fn spec_ev(kinds: u8, rel: i32, len: usize, dt: i64, base: u16) -> Ev {
-    let mut e = any_ev(kinds, len);
-    if rel != ANYNUM {
-        e.num = base.wrapping_add(rel as i16 as u16);
-    }
-    if dt >= 0 {
-        // concrete clock advance (scripted runs whose control flow must stay concrete)
-        e.dt = Duration::from_secs(dt as u64);
-    }
-    if kinds.count_ones() == 1 {
-        e.kind = kinds.trailing_zeros() as u8;
-    }
-    e
-}
-
 pub fn any_ev(kinds: u8, len: usize) -> Ev {
     // kinds: bit i set = kind i allowed; len: payload length if the event is a DATA (concrete)
     let kind: u8 = kani::any();
@@ -522,14 +494,6 @@ pub fn timeout_any() -> Duration {
     Duration::from_secs(t)
 }
 
-/// every interval the server's option negotiation acknowledges (real parse_options)
-pub fn timeout_any_u64() -> Duration {
-    match crate::server::verif_harness::acked_timeout_any() {
-        Some(d) => d,
-        None => { kani::assume(false); Duration::ZERO }
-    }
-}
-
 pub fn fmt_stub(_args: std::fmt::Arguments<'_>) -> String { String::new() }
 pub fn sleep_stub(_d: Duration) {}
 
@@ -539,7 +503,7 @@ pub fn sleep_stub(_d: Duration) {}
 /// (B0LO..=B0HI; the full range is 0..=65535).  Symbolic: every file byte, the start block,
 /// the negotiated timeout (1..=255 s), and per event kind / number / clock advance.
 macro_rules! snd_inject {
-    ($name:ident, $w:expr, $blk:expr, $j:expr, $flen:expr, $rep:expr, [$(($km:expr, $rel:expr, $dl:expr, $dt:expr)),*], $tmo:expr, $oracle:expr,
+    ($name:ident, $w:expr, $blk:expr, $j:expr, $flen:expr, $rep:expr, $k:expr, $kinds:expr, $oracle:expr,
      $b0lo:expr, $b0hi:expr, $hs:expr, $fs:expr, $unw:expr) => {
         #[kani::proof]
         #[kani::unwind($unw)]
@@ -548,8 +512,9 @@ macro_rules! snd_inject {
         #[kani::stub(std::thread::sleep, sleep_stub)]
         fn $name() {
             let fdata: [u8; CAP] = kani::any();
-            let b0: u16 = if $b0lo == $b0hi { $b0lo } else { let b: u16 = kani::any(); kani::assume(b >= $b0lo && b <= $b0hi); b };
-            let timeout = if $tmo == 0 { timeout_any() } else if $tmo == 99999 { timeout_any_u64() } else { Duration::from_secs($tmo) };
+            let b0: u16 = kani::any();
+            kani::assume(b0 >= $b0lo && b0 <= $b0hi);
+            let timeout = timeout_any();
             unsafe {
                 FS.exists = true; FS.gen = 1; FS.len = $flen; FS.data = fdata; FS.fail_at = CAP;
                 verif::START_BLOCK = if $fs { None } else { Some(b0) };
@@ -559,9 +524,9 @@ macro_rules! snd_inject {
                 M.timeout = timeout; M.b0 = if $fs { 1 } else { b0 }; M.fdata = fdata; M.flen = $flen;
                 M.front = 0; M.next_in_burst = 0; M.burst = Need::Must; M.handshake = $hs;
                 M.last_tx = verif::CLOCK;
+                M.nev = $k;
                 let mut i = 0;
-                $( M.evs[i] = spec_ev($km, $rel, $dl, $dt, M.b0); i += 1; )*
-                M.nev = i;
+                while i < $k { M.evs[i] = any_ev($kinds, 0); i += 1; }
                 if $hs { M.burst = Need::MustNot; }
             }
             let worker = Worker::new(Box::new(MockSocket), PathBuf::new(), true, $blk, timeout, $w, $rep as u8);
@@ -576,7 +541,7 @@ macro_rules! snd_inject {
 /// Receiver harness: `receive_file` from an injected state (last in-order block b0, J full blocks
 /// buffered but not yet flushed, FLEN bytes already in the file), K symbolic arrivals, then the cut.
 macro_rules! rcv_inject {
-    ($name:ident, $w:expr, $blk:expr, $j:expr, $flen:expr, $rep:expr, [$(($km:expr, $rel:expr, $dl:expr, $dt:expr)),*], $tmo:expr, $oracle:expr,
+    ($name:ident, $w:expr, $blk:expr, $j:expr, $flen:expr, $rep:expr, $k:expr, $kinds:expr, $dlen:expr, $oracle:expr,
      $b0lo:expr, $b0hi:expr, $start:expr, $unw:expr) => {
         #[kani::proof]
         #[kani::unwind($unw)]
@@ -585,8 +550,9 @@ macro_rules! rcv_inject {
         fn $name() {
             let fdata: [u8; CAP] = kani::any();
             let pb: [u8; CAP] = kani::any();
-            let b0: u16 = if $b0lo == $b0hi { $b0lo } else { let b: u16 = kani::any(); kani::assume(b >= $b0lo && b <= $b0hi); b };
-            let timeout = if $tmo == 0 { timeout_any() } else if $tmo == 99999 { timeout_any_u64() } else { Duration::from_secs($tmo) };
+            let b0: u16 = kani::any();
+            kani::assume(b0 >= $b0lo && b0 <= $b0hi);
+            let timeout = timeout_any();
             unsafe {
                 FS.exists = true; FS.gen = 1; FS.len = $flen; FS.data = fdata; FS.fail_at = CAP;
                 verif::START_BLOCK = if $start { None } else { Some(b0) };
@@ -604,9 +570,9 @@ macro_rules! rcv_inject {
                 while i < $j * $blk { M.g[$flen + i] = pb[i]; i += 1; }
                 M.glen = $flen + $j * $blk;
                 M.ack = Need::MustNot; M.ack_count = 0; M.ret = Ret::MustContinue;
+                M.nev = $k;
                 let mut i = 0;
-                $( M.evs[i] = spec_ev($km, $rel, $dl, $dt, M.last_inorder); i += 1; )*
-                M.nev = i;
+                while i < $k { M.evs[i] = any_ev($kinds, $dlen); i += 1; }
             }
             let worker = Worker::new(Box::new(MockSocket), PathBuf::new(), true, $blk, timeout, $w, $rep as u8);
             let r = worker.receive_file(File { pos: $flen, gen: 1 });
@@ -622,3 +588,301 @@ macro_rules! rcv_inject {
         }
     };
 }
+
+// ---- instances generated by the driver ----
+snd_inject!(c08_snd_w65535_j0_f3, 65535, 2, 0, 3, 1, 1, 31, 60, 0, 65535, false, false, 7);
+snd_inject!(c08_snd_w65535_j1_f4, 65535, 2, 1, 4, 1, 1, 31, 60, 0, 65535, false, false, 7);
+snd_inject!(c08_snd_w65534_j0_f5, 65534, 2, 0, 5, 1, 1, 31, 60, 0, 65535, false, false, 7);
+snd_inject!(c08_snd_w65535_j2_f4, 65535, 2, 2, 4, 1, 1, 31, 60, 0, 65535, false, false, 7);
+
+/// Test generated for harness `worker::verif_harness::c08_snd_w65535_j0_f3` 
+///
+/// Check for `assertion`: "attempt to add with overflow"
+///
+/// # Warning
+///
+/// Concrete playback tests combined with stubs or contracts is highly
+/// experimental, and subject to change.
+///
+/// The original harness has stubs which are not applied to this test.
+/// This may cause a mismatch of non-deterministic values if the stub
+/// creates any non-deterministic value.
+/// The execution path may also differ, which can be used to refine the stub
+/// logic.
+
+#[test]
+fn kani_concrete_playback_c08_snd_w65535_j0_f3_8459966300258494581_0() {
+    let concrete_vals: Vec<Vec<u8>> = vec![
+        // 255
+        vec![255],
+        // 255
+        vec![255],
+        // 255
+        vec![255],
+        // 0
+        vec![0],
+        // 0
+        vec![0],
+        // 0
+        vec![0],
+        // 0
+        vec![0],
+        // 0
+        vec![0],
+        // 0
+        vec![0],
+        // 0
+        vec![0],
+        // 0
+        vec![0],
+        // 0
+        vec![0],
+        // 0
+        vec![0],
+        // 0
+        vec![0],
+        // 0
+        vec![0],
+        // 0
+        vec![0],
+        // 65535
+        vec![255, 255],
+        // 126ul
+        vec![126, 0, 0, 0, 0, 0, 0, 0],
+        // 1
+        vec![1],
+        // 512ul
+        vec![0, 2, 0, 0, 0, 0, 0, 0],
+        // 805305860
+        vec![4, 254, 255, 47],
+        // 65534
+        vec![254, 255],
+        // 0
+        vec![0],
+        // 0
+        vec![0],
+        // 0
+        vec![0],
+    ];
+    kani::concrete_playback_run(concrete_vals, c08_snd_w65535_j0_f3);
+}
+
+
+/// Test generated for harness `worker::verif_harness::c08_snd_w65535_j0_f3` 
+///
+/// Check for `cover`: "witness: DATA sent after the window advanced"
+///
+/// # Warning
+///
+/// Concrete playback tests combined with stubs or contracts is highly
+/// experimental, and subject to change.
+///
+/// The original harness has stubs which are not applied to this test.
+/// This may cause a mismatch of non-deterministic values if the stub
+/// creates any non-deterministic value.
+/// The execution path may also differ, which can be used to refine the stub
+/// logic.
+
+#[test]
+fn kani_concrete_playback_c08_snd_w65535_j0_f3_3565906812150816385_1() {
+    let concrete_vals: Vec<Vec<u8>> = vec![
+        // 255
+        vec![255],
+        // 255
+        vec![255],
+        // 255
+        vec![255],
+        // 0
+        vec![0],
+        // 0
+        vec![0],
+        // 0
+        vec![0],
+        // 0
+        vec![0],
+        // 0
+        vec![0],
+        // 0
+        vec![0],
+        // 0
+        vec![0],
+        // 0
+        vec![0],
+        // 0
+        vec![0],
+        // 0
+        vec![0],
+        // 0
+        vec![0],
+        // 0
+        vec![0],
+        // 0
+        vec![0],
+        // 53212
+        vec![220, 207],
+        // 214ul
+        vec![214, 0, 0, 0, 0, 0, 0, 0],
+        // 1
+        vec![1],
+        // 214ul
+        vec![214, 0, 0, 0, 0, 0, 0, 0],
+        // 805305860
+        vec![4, 254, 255, 47],
+        // 53212
+        vec![220, 207],
+        // 0
+        vec![0],
+        // 0
+        vec![0],
+        // 0
+        vec![0],
+    ];
+    kani::concrete_playback_run(concrete_vals, c08_snd_w65535_j0_f3);
+}
+
+
+/// Test generated for harness `worker::verif_harness::c08_snd_w65535_j0_f3` 
+///
+/// Check for `assertion`: ""ORACLE noabort: transfer aborted where it had to continue (duplicate/stale ACK, or fewer than 6 consecutive failed receives)""
+///
+/// # Warning
+///
+/// Concrete playback tests combined with stubs or contracts is highly
+/// experimental, and subject to change.
+///
+/// The original harness has stubs which are not applied to this test.
+/// This may cause a mismatch of non-deterministic values if the stub
+/// creates any non-deterministic value.
+/// The execution path may also differ, which can be used to refine the stub
+/// logic.
+
+#[test]
+fn kani_concrete_playback_c08_snd_w65535_j0_f3_18355616253113839011_2() {
+    let concrete_vals: Vec<Vec<u8>> = vec![
+        // 255
+        vec![255],
+        // 255
+        vec![255],
+        // 255
+        vec![255],
+        // 0
+        vec![0],
+        // 0
+        vec![0],
+        // 0
+        vec![0],
+        // 0
+        vec![0],
+        // 0
+        vec![0],
+        // 0
+        vec![0],
+        // 0
+        vec![0],
+        // 0
+        vec![0],
+        // 0
+        vec![0],
+        // 0
+        vec![0],
+        // 0
+        vec![0],
+        // 0
+        vec![0],
+        // 0
+        vec![0],
+        // 49152
+        vec![0, 192],
+        // 126ul
+        vec![126, 0, 0, 0, 0, 0, 0, 0],
+        // 1
+        vec![1],
+        // 512ul
+        vec![0, 2, 0, 0, 0, 0, 0, 0],
+        // 805305860
+        vec![4, 254, 255, 47],
+        // 24575
+        vec![255, 95],
+        // 0
+        vec![0],
+        // 0
+        vec![0],
+        // 0
+        vec![0],
+    ];
+    kani::concrete_playback_run(concrete_vals, c08_snd_w65535_j0_f3);
+}
+
+
+/// Test generated for harness `worker::verif_harness::c08_snd_w65535_j0_f3` 
+///
+/// Check for `cover`: "witness: event script consumed, cut reached"
+///
+/// # Warning
+///
+/// Concrete playback tests combined with stubs or contracts is highly
+/// experimental, and subject to change.
+///
+/// The original harness has stubs which are not applied to this test.
+/// This may cause a mismatch of non-deterministic values if the stub
+/// creates any non-deterministic value.
+/// The execution path may also differ, which can be used to refine the stub
+/// logic.
+
+#[test]
+fn kani_concrete_playback_c08_snd_w65535_j0_f3_6535783462471205421_3() {
+    let concrete_vals: Vec<Vec<u8>> = vec![
+        // 1
+        vec![1],
+        // 1
+        vec![1],
+        // 0
+        vec![0],
+        // 0
+        vec![0],
+        // 0
+        vec![0],
+        // 0
+        vec![0],
+        // 0
+        vec![0],
+        // 0
+        vec![0],
+        // 0
+        vec![0],
+        // 0
+        vec![0],
+        // 0
+        vec![0],
+        // 0
+        vec![0],
+        // 0
+        vec![0],
+        // 0
+        vec![0],
+        // 0
+        vec![0],
+        // 0
+        vec![0],
+        // 2
+        vec![2, 0],
+        // 129ul
+        vec![129, 0, 0, 0, 0, 0, 0, 0],
+        // 0
+        vec![0],
+        // 577ul
+        vec![65, 2, 0, 0, 0, 0, 0, 0],
+        // 0
+        vec![0, 0, 0, 0],
+        // 32773
+        vec![5, 128],
+        // 0
+        vec![0],
+        // 0
+        vec![0],
+        // 0
+        vec![0],
+    ];
+    kani::concrete_playback_run(concrete_vals, c08_snd_w65535_j0_f3);
+}
+
